@@ -150,6 +150,19 @@ def gen_spec(rng, langs=None, npkgs=None, shapes=None, flags=None):
         spec["common_transforms"].append({"fields_set_default": {"defaults": {
             "%s.%s.%s" % (p0["pkg"], root["name"], f["name"]): v1,
             "%s.%s.%s" % (p0["pkg"], root["name"].lower(), f["name"].upper()): v2}}})
+    if shapes.get("rename_root"):
+        # renaming the object the entry point names rewrites references in place
+        spec["common_transforms"].append({"rename_object": {"from": "%s.%s" % (inputs[-1]["pkg"], inputs[-1]["defs"][0]["name"]),
+                                                            "to": inputs[-1]["defs"][0]["name"] + "Renamed"}})
+    if shapes.get("config_maps"):
+        # maps of the configuration itself: templates_data, extra --parameters, typescript import map,
+        # a hint_object transformation with two hints
+        spec["templates_data"] = {"Version": "v-%pkgroot%", "Owner": "team %pkgroot%"}
+        spec["extra_parameters"] = {"build": "1", "channel": "dev"}
+        spec["lang_cfg"] = {"typescript": {"packages_import_map": {inputs[0]["pkg"]: "@verif/" + inputs[0]["pkg"],
+                                                                  inputs[1]["pkg"]: "@verif/" + inputs[1]["pkg"]}}}
+        spec["common_transforms"].append({"hint_object": {"object": "%s.%s" % (inputs[0]["pkg"], inputs[0]["defs"][0]["name"]),
+                                                          "hints": {"verif_a": "1", "verif_b": "2"}}})
     if shapes.get("struct_default"):
         for inp in inputs[:2]:
             rn = inp["defs"][0]["name"]
@@ -304,7 +317,7 @@ def render(spec):
 
 
 SHAPE_KEYS = ["two_discriminators", "struct_default", "nested_params", "set_default_twice", "colliding_names", "openapi",
-              "factories", "compose"]
+              "factories", "compose", "config_maps", "rename_root"]
 
 
 def gen_case(rng, langs=None, shapes=None, flags=None, npkgs=None):
